@@ -220,11 +220,24 @@ def gains_bounded_instance():
     def make(B):
         return {'which': B.choose('which', ['cacgmm', 'cacgmm-ll', 'cwmm', 'cwmm-fit_predict', 'cbmm', 'vmfmm', 'gcacgmm', 'vmfcacgmm', 'cacg', 'watson', 'vmf']),
                 'range': B.choose('range', [(1e-3, 1e3), (1e-100, 1e100), (1e-100, 1e-90), (1e90, 1e100)]),
-                'it': B.choose('it', [1, 3, 8]), 'seed': B.choose('seed', list(range(3000))), 'd': B.given('d', np.zeros(1))}
+                'it': B.choose('it', [1, 3, 8]), 'seed': B.choose('seed', list(range(3000))), 'd': B.given('d', np.zeros(1)),
+                'trainer': B.choose('trainer', ['fresh', 'dimension', 'reused'])}
 
     def call(inp):
         rng = np.random.RandomState(inp['seed'])
         which, it = inp['which'], inp['it']
+        warm = rng.normal(size=(1, 8, 3)) + 1j * rng.normal(size=(1, 8, 3))
+        warm_init = np.moveaxis(rng.dirichlet(np.ones(2), size=(1, 8)), -1, -2).copy()
+
+        def mk(cls):
+            # trainer objects with a dimension option: fresh, constructed with the dimension, or used before
+            if inp['trainer'] == 'dimension':
+                return cls(dimension=3)
+            tr = cls()
+            if inp['trainer'] == 'reused':
+                with np.errstate(all='ignore'):
+                    tr.fit(warm, initialization=warm_init, iterations=1)
+            return tr
         F, N, D, K = 2, 24, 3, 2
         lo, hi = inp['range']
         real = which in ('vmfmm', 'vmf')
@@ -240,12 +253,12 @@ def gains_bounded_instance():
                 m = CACGMMTrainer().fit(yy, initialization=init, iterations=it)
                 return [m.predict(yy), np.asarray(m.log_likelihood(yy)), m.weight, m.cacg.covariance_eigenvalues, m.cacg.covariance]
             if which == 'cwmm':
-                m = CWMMTrainer().fit(yy, initialization=init, iterations=it)
+                m = mk(CWMMTrainer).fit(yy, initialization=init, iterations=it)
                 return [m.predict(yy), m.weight, np.asarray(m.complex_watson.concentration)]
             if which == 'cwmm-fit_predict':
-                return [CWMMTrainer().fit_predict(yy, initialization=init, iterations=it)]
+                return [mk(CWMMTrainer).fit_predict(yy, initialization=init, iterations=it)]
             if which == 'cbmm':
-                m = CBMMTrainer().fit(yy[:1, :8], initialization=init[:1, :, :8], iterations=1)
+                m = mk(CBMMTrainer).fit(yy[:1, :8], initialization=init[:1, :, :8], iterations=1)
                 return [m.predict(yy[:1, :8]), m.weight]
             if which == 'vmfmm':
                 m = VMFMMTrainer().fit(yy, initialization=init, iterations=it)
